@@ -976,6 +976,10 @@ class Checker:
                 self.rej("C02.extra-callback", f"guard {gid} evaluated but no event is left to process")
         if ctx.failing:
             return
+        df = getattr(self, "drain_failing", None)
+        if df is not None and df.tok == tok:
+            self.stats["masked_siblings"] += 1
+            return
         tid = ev.get("tid")
         for _ in range(10000):
             if ctx.phase in ("validators", "cond"):
@@ -991,6 +995,19 @@ class Checker:
                     if ctx.phase == "validators" and self.validator_ids(t) - ctx.seen_validators:
                         self.soft("C02.order", f"guard {gid} evaluated before validators {sorted(self.validator_ids(t) - ctx.seen_validators)} of t{t['i']}")
                     ctx.seen_guards.add(gid)
+                    if ev.get("val") == "raise":
+                        # a guard that raises is a failing callback: the event aborts, state = source
+                        ctx.failing = ("ValidatorError", "cond", None)
+                        ctx.outcome = "fault"
+                        ctx.fail_phase_set = set()
+                        self.stats["faults"] += 1
+                        self.stats["guard_faults"] = self.stats.get("guard_faults", 0) + 1
+                        if not hasattr(self, "fault_classes"):
+                            self.fault_classes = set()
+                        self.fault_classes.add(("cond", "guard", "sm", bool(self.queue), self.rtc, "ValidatorError"))
+                        if self.rtc:
+                            self._finish_ctx_rtc()
+                        return
                     gk = next((g["kind"] for g in t["guards"] if g["name"] == name), None)
                     if ev.get("val") in (True, False) and ((gk == "cond" and not ev["val"]) or (gk == "unless" and ev["val"])):
                         ctx.decided_ci = ctx.ci
@@ -1036,6 +1053,10 @@ class Checker:
         ctx = self.ctx
         gid, tok = ev["g"], ev.get("tok")
         self.stats["async_guard_completions"] = self.stats.get("async_guard_completions", 0) + 1
+        df = getattr(self, "drain_failing", None)
+        if (df is not None and df.tok == tok) or (ctx is not None and ctx.failing and ctx.tok == tok):
+            self.stats["masked_siblings"] += 1    # sibling of a guard/validator that raised
+            return
         ok = (
             ctx is not None and ctx.tok == tok and not ctx.failing and ctx.phase in ("validators", "cond")
             and gid in ctx.seen_guards
